@@ -45,7 +45,7 @@ var c02Factors = []struct {
 	name string
 	n    int64
 }{{"base", 3}, {"bits", 256}, {"anchor", 4}, {"identity", 3}, {"expiry", 3}, {"certTime", 2}, {"revocation", 4}, {"plugin", 10},
-	{"vIdentity", 3}, {"vRevocation", 3}, {"callErr", 2}, {"crit", 3}, {"scheme", 2}, {"format", 2}, {"legacy", 2}, {"pver", 6}, {"prelude", 6}, {"entry", 2}, {"ctor", 2}}
+	{"vIdentity", 3}, {"vRevocation", 3}, {"callErr", 2}, {"crit", 3}, {"scheme", 2}, {"format", 2}, {"legacy", 2}, {"pver", 6}, {"prelude", 6}, {"entry", 2}, {"ctor", 2}, {"minver", 6}}
 
 func (c02) Gen(r *rand.Rand, tier string, idx int) *core.Plan {
 	w := map[string]int64{}
@@ -90,6 +90,7 @@ func (c02) Gen(r *rand.Rand, tier string, idx int) *core.Plan {
 	w["prelude"] = healthy(6, 60)
 	w["entry"] = r.Int64N(2)
 	w["ctor"] = r.Int64N(2)
+	w["minver"] = healthy(6, 75)
 	return p
 }
 
@@ -106,6 +107,8 @@ func (c02) Simplify(p *core.Plan) []*core.Plan {
 }
 
 const c02Plugin = "verifyplug"
+
+var c02MinVersions = []string{"1.5.0", "01.5.0", "1.5", "v1.5.0", "1.05.0", "2024.01.15"}
 
 func (l c02) Exec(env *core.Env) *core.Result {
 	p := env.Plan
@@ -142,10 +145,14 @@ func (l c02) Exec(env *core.Env) *core.Result {
 			so.Expiry = now.Add(time.Hour)
 		}
 		plug := w["plugin"]
+		minVersionInvalid := false
 		if plug != 0 {
 			so.ExtAttrs = append(so.ExtAttrs, signature.Attribute{Key: "io.cncf.notary.verificationPlugin", Critical: true, Value: c02Plugin})
-			if plug == 3 || w["bits"]%2 == 0 || w["pver"] != 0 {
-				so.ExtAttrs = append(so.ExtAttrs, signature.Attribute{Key: "io.cncf.notary.verificationPluginMinVersion", Critical: true, Value: "1.5.0"})
+			if plug == 3 || w["bits"]%2 == 0 || w["pver"] != 0 || w["minver"] != 0 {
+				// the signed minimum version: 1.5.0, or a spelling that is not a semantic version at all
+				// (leading zeros, missing component, "v" prefix) - then nothing can satisfy it
+				so.ExtAttrs = append(so.ExtAttrs, signature.Attribute{Key: "io.cncf.notary.verificationPluginMinVersion", Critical: true, Value: c02MinVersions[w["minver"]%int64(len(c02MinVersions))]})
+				minVersionInvalid = w["minver"]%int64(len(c02MinVersions)) != 0
 			}
 		}
 		const critKey = "com.example.critical"
@@ -209,8 +216,8 @@ func (l c02) Exec(env *core.Env) *core.Result {
 					case 8:
 						sp.MetaErr = errors.New("simulated: plugin crashed")
 						caps = []pf.Capability{pf.CapabilityTrustedIdentityVerifier}
-					case 9:
-						sp.Meta.Version = "2.0"
+					case 9: // an installed version that is no semantic version
+						sp.Meta.Version = []string{"2.0", "02.0.0", "2", "v2.0.0", "2.00.0"}[w["bits"]%5]
 						caps = []pf.Capability{pf.CapabilityTrustedIdentityVerifier}
 					}
 					// the installed version relative to the signed minimum 1.5.0 (SemVer precedence decides)
@@ -272,8 +279,11 @@ func (l c02) Exec(env *core.Env) *core.Result {
 		if plug >= 5 && plug <= 7 && (w["pver"] == 2 || w["pver"] == 5) {
 			pluginProblem = true // installed version precedes the signed minimum
 		}
-		situation := fmt.Sprintf("anchor=%d identity=%d expiry=%d certTime=%d revocation=%d plugin=%d verdicts=%d/%d callErr=%d crit=%d scheme=%d fmt=%d legacy=%d bits=%d pver=%d prelude=%d entry=%d",
-			w["anchor"], w["identity"], w["expiry"], w["certTime"], w["revocation"], plug, w["vIdentity"], w["vRevocation"], w["callErr"], w["crit"], w["scheme"], w["format"], w["legacy"], w["bits"], w["pver"], w["prelude"], w["entry"])
+		if plug != 0 && minVersionInvalid {
+			pluginProblem = true // the signed minimum version is no semantic version
+		}
+		situation := fmt.Sprintf("anchor=%d identity=%d expiry=%d certTime=%d revocation=%d plugin=%d verdicts=%d/%d callErr=%d crit=%d scheme=%d fmt=%d legacy=%d bits=%d pver=%d prelude=%d entry=%d minver=%d",
+			w["anchor"], w["identity"], w["expiry"], w["certTime"], w["revocation"], plug, w["vIdentity"], w["vRevocation"], w["callErr"], w["crit"], w["scheme"], w["format"], w["legacy"], w["bits"], w["pver"], w["prelude"], w["entry"], w["minver"])
 		accepted := map[string]bool{}
 		for base := int64(0); base < 3; base++ {
 			levelName, override, enf := levelFromKnobs(base, w["bits"])
@@ -312,7 +322,7 @@ func (l c02) Exec(env *core.Env) *core.Result {
 				}
 				installed, had := sm.Plugins[c02Plugin]
 				sm.Plugins[c02Plugin] = pre
-				verifyEntry(ctx, v, w["entry"], desc, sig, so.MediaType)
+				verifyEntry(ctx, v, entryOf(w), desc, sig, so.MediaType)
 				if had {
 					sm.Plugins[c02Plugin] = installed
 				} else {
@@ -322,7 +332,7 @@ func (l c02) Exec(env *core.Env) *core.Result {
 				rt.Sleep(3 * time.Minute)
 				res.Probe("verified_before_with_another_plugin_build_installed")
 			}
-			outcome, verr := verifyEntry(ctx, v, w["entry"], desc, sig, so.MediaType)
+			outcome, verr := verifyEntry(ctx, v, entryOf(w), desc, sig, so.MediaType)
 			accepted[levelName] = verr == nil
 			key := fmt.Sprintf("%s%v | %s", levelName, override, situation)
 			var rs []string
